@@ -25,22 +25,23 @@ Definition ghost_sq_weight_2d (p q : nat) (g a : nat -> T) : T := nmul (sum_n p 
 
 (* ---- nn.Embedding (grad_sample/embedding_norm_sample.py), one sample: ids idx t (t < L positions), backprops g t d (d < D),
    an optional padding index.  True per-sample gradient = scatter-add of the backprops into the rows named by the ids, padding row
-   zero (the grad sampler of embedding.py; Model/Layers.emb_gs is the same function over a ring). *)
+   zero (the grad sampler of embedding.py; Model/Layers.emb_gs is the same function over a ring).  `sc v` is the factor applied to row v:
+   1, or 1 / (number of positions of the sample holding v) under scale_grad_by_freq -- a constant of the sample's ids. *)
 Definition emb_gs_row (pad : option nat) (L : nat) (idx : nat -> nat) (g : nat -> nat -> T) (v d : nat) : T :=
   match pad with
   | Some p => if Nat.eqb v p then n0 else sum_n L (fun t => if Nat.eqb (idx t) v then g t d else n0)
   | None => sum_n L (fun t => if Nat.eqb (idx t) v then g t d else n0)
   end.
-Definition true_norm_sq_embedding (pad : option nat) (V L D : nat) idx g : T :=
-  sum_n V (fun v => sum_n D (fun d => nsq (emb_gs_row pad L idx g v d))).
+Definition true_norm_sq_embedding (sc : nat -> T) (pad : option nat) (V L D : nat) idx g : T :=
+  sum_n V (fun v => sum_n D (fun d => nsq (nmul (sc v) (emb_gs_row pad L idx g v d)))).
 (* what compute_embedding_norm_sample computes (squared): values at padding positions are masked to zero; the positions of the row are
    grouped by id (torch.unique over (row, id) pairs + index_add); the squared norms of the group sums are added up (scatter_add) *)
 Definition emb_masked (pad : option nat) (idx : nat -> nat) (g : nat -> nat -> T) (t d : nat) : T :=
   match pad with Some p => if Nat.eqb (idx t) p then n0 else g t d | None => g t d end.
 Definition row_ids (L : nat) (idx : nat -> nat) : list nat := nodup Nat.eq_dec (map idx (seq 0 L)).
 Definition lsum (l : list nat) (f : nat -> T) : T := fold_right (fun v acc => nadd (f v) acc) n0 l.
-Definition ghost_sq_embedding (pad : option nat) (L D : nat) idx g : T :=
-  lsum (row_ids L idx) (fun v => sum_n D (fun d => nsq (sum_n L (fun t => if Nat.eqb (idx t) v then emb_masked pad idx g t d else n0)))).
+Definition ghost_sq_embedding (sc : nat -> T) (pad : option nat) (L D : nat) idx g : T :=
+  lsum (row_ids L idx) (fun v => sum_n D (fun d => nsq (nmul (sc v) (sum_n L (fun t => if Nat.eqb (idx t) v then emb_masked pad idx g t d else n0))))).
 (* the sampler before the repair: no masking *)
-Definition ghost_sq_embedding_old (L D : nat) idx g : T := ghost_sq_embedding None L D idx g.
+Definition ghost_sq_embedding_old (sc : nat -> T) (L D : nat) idx g : T := ghost_sq_embedding sc None L D idx g.
 End G.
